@@ -194,10 +194,45 @@ def room_laws(ctx, three=None):
         ctx.violation('ff-closure', 'form factors leaving a patch sum to 1 with error %.4f > 2.5 %%' % closure, inp, closure, 0.025)
 
 
+def touching_laws(ctx, n):
+    """General TOUCHING pairs (parallelograms / triangles sharing one vertex or one edge, any vertex-list start, dihedral
+    60..120 degrees): the dispatched form factor is finite and lies in [0, 1], and is unchanged by a rigid motion and a uniform
+    scaling (1e-6) - the Nusselt branch of `universal_form_factor` on shapes other than the rectangles of a shoebox."""
+    common.import_repo()
+    from sparrowpy.form_factor import universal
+    worst = ctx.measured.get('touching_similarity_max_rel_dev', 0.0)
+    for k in range(n):
+        Pi, ni, Pj, nj = geomgen.touching_general_pair(ctx.rng)
+        ctx.count('touching.%d_vertices' % len(Pi))
+        base = universal.universal_form_factor(Pi.copy(), ni.copy(), ffref.area(Pi), Pj.copy(), nj.copy())
+        ctx.oracle_evals += 1
+        inp = {'Pi': Pi, 'Pj': Pj, 'ni': ni, 'nj': nj}
+        if not (np.isfinite(base) and 0.0 <= base <= 1.0):
+            ctx.violation('ff-range', 'form factor of a touching pair is %r, outside [0, 1]' % float(base), inp, float(base), '[0,1]')
+            return
+        R = geomgen.rand_rotation(ctx.rng)
+        t = ctx.rng.uniform(-20, 20, size=3)
+        s = float(np.exp(ctx.rng.uniform(np.log(0.3), np.log(30))))
+        for name, f, g in (('rigid motion', lambda P: P @ R.T + t, lambda v: R @ v), ('uniform scaling x%.3g' % s, lambda P: s * P, lambda v: v)):
+            Pi2, Pj2 = f(Pi), f(Pj)
+            v = universal.universal_form_factor(Pi2.copy(), g(ni).copy(), ffref.area(Pi2), Pj2.copy(), g(nj).copy())
+            ctx.oracle_evals += 1
+            if not (np.isfinite(v) and 0.0 <= v <= 1.0):
+                ctx.violation('ff-range', 'form factor of a touching pair after %s is %r, outside [0, 1]' % (name, float(v)), dict(inp, transform=name), float(v), '[0,1]')
+                return
+            dev = abs(v - base) / max(base, 1e-300)
+            worst = max(worst, dev)
+            if dev > 1e-6:
+                ctx.violation('ff-similarity', 'form factor of a touching pair changes under %s: %.10g vs %.10g' % (name, v, base), dict(inp, transform=name), float(v), float(base))
+                return
+    ctx.measured['touching_similarity_max_rel_dev'] = worst
+
+
 def run(ctx):
     corr_stokes(ctx, 30 if ctx.tier == 'quick' else 600)
     corr_universal(ctx, 24 if ctx.tier == 'quick' else 600)
     similarity(ctx, 9 if ctx.tier == 'quick' else 150)
+    touching_laws(ctx, 16 if ctx.tier == 'quick' else 300)
     for k in range(10 if ctx.tier == 'quick' else 50):
         room_laws(ctx, three=(k % 2 == 1))
 
@@ -206,6 +241,7 @@ def oracle(ctx, budget_s=60):
     t = common.Timer()
     while t.s() < budget_s and not ctx.violations:
         similarity(ctx, 6)
+        touching_laws(ctx, 12)
         room_laws(ctx)
 
 
